@@ -115,7 +115,7 @@ func (c02) NRuns(tier string) int {
 	if tier == "thorough" {
 		return c02EnumCount(tier) + 1000000
 	}
-	return c02EnumCount(tier) + 3000
+	return c02EnumCount(tier) + 10000
 }
 
 func (c02) Rule() string {
